@@ -471,3 +471,49 @@ class MathExpressionAndConstraints(Contract):
 
     def sentinels(self, P, ctx, case):
         return [Clause("sentinel[false]", z3.BoolVal(False), hyps=asserted(ctx["solver"]), props=("C08",), kind="sound")]
+
+
+@register
+class BufferLevelExtrema(Contract):
+    """IndicatorMaxBufferLevel / IndicatorMinBufferLevel: the extremum of the buffer's level sequence"""
+
+    target = "indicator.IndicatorMaxBufferLevel.__init__"
+    inlines = ("indicator.IndicatorMinBufferLevel.__init__", "util.get_maximum", "util.get_minimum", "objective.ObjectiveMaximizeMaxBufferLevel.__init__", "objective.ObjectiveMinimizeMaxBufferLevel.__init__")
+    props = ("C08",)
+    bounded = "one buffer with 1..2 accessing tasks; quantities and levels symbolic"
+
+    def cases(self, tier):
+        return [dict(which=w, kind=k, acc=a, via=v) for w in ("max", "min") for k in ("nc", "c") for a in (("U",), ("L", "U")) for v in ("indicator", "objective") if not (w == "min" and v == "objective")]
+
+    def scenario(self, ps, P, case):
+        from contracts.buffer import make_buffer
+
+        P.assume(P.int("H") >= 1)
+        pb = ps.SchedulingProblem(name="pb", horizon=P.int("H"))
+        b = make_buffer(ps, P, case["kind"], "b", init=True, final=False, bounds=False)
+        for i, a in enumerate(case["acc"]):
+            P.assume(P.int(f"t{i+1}_dur") >= 1)
+            t = ps.FixedDurationTask(name=f"t{i+1}", duration=P.int(f"t{i+1}_dur"))
+            P.assume(P.int(f"q{i+1}") >= 1)
+            (ps.TaskUnloadBuffer if a == "U" else ps.TaskLoadBuffer)(task=t, buffer=b, quantity=P.int(f"q{i+1}"))
+        if case["via"] == "objective":
+            obj = ps.ObjectiveMaximizeMaxBufferLevel(buffer=b)
+            ind = obj.target
+        else:
+            ind = ps.IndicatorMaxBufferLevel(buffer=b) if case["which"] == "max" else ps.IndicatorMinBufferLevel(buffer=b)
+        solver = ps.SchedulingSolver(problem=pb)
+        solver.initialize()
+        return dict(pb=pb, b=b, ind=ind, solver=solver)
+
+    def clauses(self, P, ctx, case):
+        A = asserted(ctx["solver"])
+        v = ctx["ind"]._indicator_variable
+        ls = list(ctx["b"]._buffer_levels)
+        if case["which"] == "max":
+            want = And(Or(*[v == l for l in ls]), *[v >= l for l in ls])
+        else:
+            want = And(Or(*[v == l for l in ls]), *[v <= l for l in ls])
+        return [Clause("equals[indicator = extremum of the buffer's levels]", want, hyps=A, props=("C08",), kind="equals", bounded=self.bounded)]
+
+    def sentinels(self, P, ctx, case):
+        return [Clause("sentinel[false]", z3.BoolVal(False), hyps=asserted(ctx["solver"]), props=("C08",), kind="sound")]
